@@ -133,7 +133,12 @@ class Check(PropertyCheck):
                   "its full statement h2_to_h1_streamed_single_message is refuted by h2_to_h1_streamed_single_message_"
                   "counterexample (the F-C06a witness: a streamed body without content-length is read as a second request) and "
                   "proved as h2_to_h1_streamed_single_message_partial under the decidable guard streamedFramed (the head "
-                  "carries a content-length or there is no body); status_preserved covers the three response conversions; conversion_keeps_message: sending "
+                  "carries a content-length or there is no body); h2_to_h1_response_single_message is the RESPONSE direction: "
+                  "for every final response block h2's validator and mitmproxy's checks accept, what Http1Server writes to an "
+                  "HTTP/1 client is read by the response side of the Lean reference reader (Ref.parseResp: status line, "
+                  "no body for HEAD/1xx/204/304, content-length, else close-delimited — closeAfter says exactly when the "
+                  "connection must close) as exactly ONE response with the same status, fields and body; status_preserved "
+                  "covers the three response conversions; conversion_keeps_message: sending "
                   "leaves the recorded request unchanged and every later send of the same flow emits what the first would "
                   "(the model's sendAll over any history of hops) — the harness checks both on the real code: the recorded "
                   "request/response state before and after it was sent must be equal (non-interference clause), and the "
@@ -141,15 +146,19 @@ class Check(PropertyCheck):
                   "HTTP/2 servers, each pass judged by the same conversion oracle and compared with the model. The model is tied to "
                   "the real layers by byte-exact differential runs over all four (client, server) version pairs with "
                   "adversarial header blocks, and the Lean reference reader to harness/common/refparsers.py on every byte "
-                  "string mitmproxy wrote to an HTTP/1 server.")
+                  "string mitmproxy wrote to an HTTP/1 server (op refparse) and, for its response-stream / close-delimited "
+                  "side, on every byte string mitmproxy wrote to an HTTP/1 client (op refresp: same framing decision, same "
+                  "messages, same leftover).")
     level_note = ("trusted / not proved: that hyper-h2 enforces H2Valid and content-length = body length (hypotheses of the "
                   "theorems; exercised by the differential run — the one hole found, END_STREAM on the HEADERS frame, is "
                   "finding F-C06b); url.parse_authority (its verdict is a parameter); hpack. PARTIAL: the streamed "
                   "(flow.request.stream) request conversion violates the property for bodies without content-length (finding "
                   "F-C06a, pinned by an upstream test): the code does NOT re-frame such a body as chunked, so the theorem is "
                   "_partial + _counterexample, and the model reproduces the defect byte for byte in the differential run; "
-                  "streamed RESPONSES towards HTTP/1 are close-delimited and only checked by the oracle (the Lean reference "
-                  "reader has no response-stream side). "
+                  "streamed RESPONSES towards HTTP/1 without content-length are close-delimited: the theorem "
+                  "h2_to_h1_response_single_message covers them only together with the connection closing after the "
+                  "message (closeAfter), which on the real code is checked by the oracle; its content-length law for the "
+                  "response (RespClLaw: what hyper-h2 enforces on DATA vs content-length) is a hypothesis. "
                   "HTTP/3 is NOT exercised: Http3Server/Http3Client share parse_h2_request_headers / format_h2_*_headers and "
                   "the Http1 conversion with HTTP/2 (covered), the aioquic H3 framing is not. Trailers are only required to "
                   "survive HTTP/2 -> HTTP/2 (oracle + model): mitmproxy has no HTTP/1 trailer support, an HTTP/1 hop is "
